@@ -38,3 +38,10 @@ TECHNIQUE["C15"] = "deterministic simulation of expression programs with aliasin
 LEVEL_TEXT["C16"] = "Sessions over SHARED basis instances interleaving supported requests, raising requests and use inside Model/Mpo: (i) every returned matrix equals that of a fresh identically-constructed instance (history independence incl. after exceptions), (ii) defining relations (written-order products, commutators, powers, shifted-origin/DVR/general-power consistency, sine-DVR integrals by quadrature, Pauli algebra, multi-electron placement), (iii) Holstein/spin-boson/TI builders vs harness-assembled Hamiltonians and spectra across schemes. (ii),(iii) are sampled inputs."
 LEVEL_NOTE["C16"] = "Trusted: numpy/scipy (quad, eigvalsh); relations are checked on the sub-block unaffected by basis truncation; only (i) is a schedule property, (ii)/(iii) have the strength of seeded random testing."
 TECHNIQUE["C16"] = "deterministic simulation of call histories on shared mutable basis objects (incl. failing calls) + sampled relation checks"
+
+LEVEL_TEXT["C01"] = "Seeded sessions dominated by Mpo construction (QR / Hopcroft-Karp / Hungarian, offsets, complex factors, duplicates, cancellations, multi-DoF sites) compared with the dense sum of Kronecker products, and by sequences of adjacent-site swaps carried by one operator object (three swap algorithms, interleaved with copies), compared with the dense site permutation; construction must not consume the global RNG and its tensors must be bit-identical under two PYTHONHASHSEED classes."
+LEVEL_NOTE["C01"] = _CHAIN_NOTE + " try_swap_site is only offered on operators whose numeric tensors are still in sync with their symbolic form (freshly built or copied; in-place canonicalise/compress de-synchronise it - documented API limitation)."
+TECHNIQUE["C01"] = "deterministic simulation of construction + swap histories against a dense reference (seeded search, ddmin replay)"
+LEVEL_TEXT["C18"] = "Kernel invocations on generated structured inputs with scheduled LAPACK failures: expm_krylov vs scipy expm (2e-6 relative; degenerate/rank-deficient/diagonal spectra, invariant-subspace starts, block sizes 2-50, real/imaginary dt of both signs, eigh_tridiagonal failing so the dense fallback runs), svd_qn/eigh_qn (SVD/QR, both systems, full/economic, optimised completion) for orthonormality, exact restoration of the symmetry-allowed part, labels, sorting, with the first SVD driver failing so the gesvd fallback runs."
+LEVEL_NOTE["C18"] = "Trusted: scipy.linalg.expm / svdvals.  Probes for every exit branch (buffer growth, full-space, structured early exit, convergence, both LAPACK fallbacks) are reported non-zero in the evidence."
+TECHNIQUE["C18"] = "deterministic simulation with injected LAPACK failures at scheduled calls + seeded structured inputs"
